@@ -47,7 +47,10 @@ let emit mode c s_c wsspec =
   put_bool (guard cs); put_n (klass cs);
   put_value wsenc;
   put_value (if mode = 0 then VNone else wsspec ())
-let dispatch = function
+let rec dispatch = function
+  | "seq" ->    (* several initializes of one server: each is a complete sub-command *)
+    let k = next_int () in
+    for _ = 1 to k do dispatch (next_tok ()) done
   | "hist" ->    (* a registration history: attempts (kind code object check), then as "caps" *)
     let mode = next_int () in
     let atts = read_list (fun () ->
